@@ -841,6 +841,14 @@ type ProposalMessage struct {
 
 // ValidateBasic performs basic validation.
 func (m *ProposalMessage) ValidateBasic() error {
+	if m.Proposal == nil {
+		return fmt.Errorf("nil proposal")
+	}
+	// The part-set total sizes the bit arrays allocated for this peer and round.
+	if m.Proposal.POLBlockID.PartsHeader.Total > types.MaxBlockPartsCount {
+		return fmt.Errorf("proposal part set too big: %d, max: %d",
+			m.Proposal.POLBlockID.PartsHeader.Total, types.MaxBlockPartsCount)
+	}
 	return nil
 }
 
